@@ -60,3 +60,7 @@ TEXT['C10'] = dict(
    technique='Coq proof: panic freedom of every decoder for all byte strings, unhandled packets are a no-op of the handler model; malformed/junk frames interleaved into server histories + monitor',
    level='coq/Properties/C10.v: no byte string makes the IPv4/UDP/ARP/DHCP decoders index outside their input; hlen > 16 is rejected; a packet that is not an IPv4/UDP BOOTREQUEST of type DISCOVER/REQUEST produces no reply and leaves the lease table unchanged. Tie: junk, truncated, non-UDP and other-type packets inside the server histories (a panic kills the harness and is reported), mon_C10 (no reply, snapshot unchanged). The client-side receive path is covered under C14.',
    note=_SRV_NOTE)
+TEXT['C17'] = dict(
+   technique='Coq proof over a hand-written model of envEntry/dumpScriptConf (with Go\'s rune-wise regexp replacement) and of resolvconf.Run (scan, anchored classes, rendering): character-set theorem, file grammar (inductive grammar = boolean recogniser), render = functional specification, composition; differential correspondence against the library, a real child process and the real binary in a chroot; specification recognisers evaluated on every implementation output',
+   level='Theorems in coq/Properties/C17.v hold for every key and every byte string of any length (any byte values, any UTF-8 damage): every byte of envEntry(k, v) after "PSA_DHCPC_k=" is a letter, digit, comma, dot, hyphen or underscore; dumpScriptConf yields exactly the seven variables with such values for every interface configuration; for every environment (any number of entries, duplicates, entries without "=") the buffer resolvconf.Run writes is header, at most one "search" line with one non-empty hostname-character token, then "nameserver" lines with one non-empty [0-9.] token each, at least one of them, and nothing is written exactly when the environment supplies no valid name-server token; the written file equals an independently stated function of the environment; the composition Ifconfig -> environment -> file has that shape for all contents. Tie to the code each run: the library functions on all byte values and UTF-8 boundary cases, 50 real child processes through Cbhandler, and the real psa-dhcpc -syshook binary in a chroot on 173 environment blocks (quick).',
+   note='Trusted: Coq kernel, extraction, driver, harness, hand-written models, gofacts for the literals; Go regexp/utf8/os.Environ semantics as modelled. dclient.buildNetconfig is not executed (the theorems quantify over every Ifconfig content); update() (atomic replace) is C20.')
